@@ -390,6 +390,69 @@ func runExec(args []string) {
 				continue
 			}
 			fmt.Fprintf(out, "%s => %d %d %s %s %s %s%s\n", line, r.t0, r.t1, r.reply, dumpKeys(mgr, f[1]), floatAnn(argv), r.rf, evField(r))
+		case "G", "L", "LB":
+			// keyspace snapshot (C08):
+			//   G            => <t0> <t1> <hex of MemDb.GetSnapshot()>
+			//   L            => <t0> <t1> <hex of the snapshot> ok|err <full dump>   the snapshot is loaded into a FRESH MemDb that
+			//                   takes the place of the current database; the program continues on the restored keyspace
+			//   LB <hex>     => <t0> <t1> ok|err <full dump>                         LoadSnapshot of arbitrary bytes into the CURRENT database
+			if mgr == nil || dead || hangs >= 2 {
+				fmt.Fprintf(out, "%s => SKIP\n", line)
+				continue
+			}
+			fmt.Fprintf(out, "%s => %s\n", line, snapshotLine(mgr, f))
 		}
+	}
+}
+
+// snapshotLine runs one G / L / LB line; a panic inside the snapshot code is reported as PANIC (the program goes on)
+func snapshotLine(mgr *server.Manager, f []string) (res string) {
+	defer func() {
+		if e := recover(); e != nil {
+			res = fmt.Sprintf("%d %d PANIC", time.Now().Unix(), time.Now().Unix())
+			if os.Getenv("VERIF_SHOWPANIC") != "" {
+				fmt.Fprintln(os.Stderr, "panic:", e)
+			}
+		}
+	}()
+	t0 := time.Now().Unix()
+	switch f[0] {
+	case "G":
+		snap, err := mgr.CurrentDB.GetSnapshot()
+		t1 := time.Now().Unix()
+		if err != nil {
+			return fmt.Sprintf("%d %d ERR", t0, t1)
+		}
+		return fmt.Sprintf("%d %d %s", t0, t1, hx(snap))
+	case "L":
+		snap, err := mgr.CurrentDB.GetSnapshot()
+		t1 := time.Now().Unix()
+		if err != nil {
+			return fmt.Sprintf("%d %d ERR", t0, t1)
+		}
+		fresh := memdb.NewMemDb()
+		fresh.SubChans = mgr.DBs[0].SubChans
+		verdict := "ok"
+		if err := fresh.LoadSnapshot(snap); err != nil {
+			verdict = "err"
+		}
+		for i := range mgr.DBs {
+			if mgr.DBs[i] == mgr.CurrentDB {
+				mgr.DBs[i] = fresh
+			}
+		}
+		mgr.CurrentDB = fresh
+		return fmt.Sprintf("%d %d %s %s %s", t0, t1, hx(snap), verdict, dumpKeys(mgr, "*"))
+	default:
+		var data []byte
+		if len(f) > 1 {
+			data = unhex(f[1])
+		}
+		verdict := "ok"
+		if err := mgr.CurrentDB.LoadSnapshot(data); err != nil {
+			verdict = "err"
+		}
+		t1 := time.Now().Unix()
+		return fmt.Sprintf("%d %d %s %s", t0, t1, verdict, dumpKeys(mgr, "*"))
 	}
 }
